@@ -114,9 +114,29 @@ func runMuxTab(c *core.Ctx) {
 	c.CountFuncs(1)
 	var relayG, nipG, defG, greetG [][]string
 	var relayPos, nipPos, defPos token.Pos
+	// the document may be served by a private method of NIP11 that NIP11.ServeHTTP itself
+	// hands its writer to (the mux may call it directly once it has tested Accept itself)
+	nipServers := map[*ssa.Function]bool{}
+	if nip := P.Method(P.Root, "NIP11", "ServeHTTP"); nip != nil {
+		for _, ci := range calls(nip) {
+			g := an.StaticCallee(ci.Common())
+			if g == nil || !an.PrivateHelper(g) || g.Signature.Recv() == nil || len(ci.Common().Args) == 0 || an.PathOf(ci.Common().Args[0]) != "recv" {
+				continue
+			}
+			takesWriter := false
+			for _, a := range ci.Common().Args[1:] {
+				if an.PathOf(a) == "p:"+nip.Params[1].Name() {
+					takesWriter = true
+				}
+			}
+			if takesWriter {
+				nipServers[g] = true
+			}
+		}
+	}
 	// the dispatch may hand a branch to a private method: the header tests that count
 	// are those in front of the call site in ServeHTTP
-	an.Region(mux, nil, func(o an.Occ) {
+	an.Region(mux, func(g *ssa.Function) bool { return nipServers[g] }, func(o an.Occ) {
 		call, ok := o.In.(*ssa.Call)
 		if !ok {
 			return
@@ -126,11 +146,14 @@ func runMuxTab(c *core.Ctx) {
 		switch {
 		case strings.HasSuffix(name, "mocrelay.Relay).ServeHTTP") && o.Path(call.Call.Args[0]) == "recv.Relay":
 			relayG, relayPos = append(relayG, gs), o.Site().Pos()
-		case strings.HasSuffix(name, "mocrelay.NIP11).ServeHTTP") && o.Path(call.Call.Args[0]) == "recv.NIP11":
+		case (strings.HasSuffix(name, "mocrelay.NIP11).ServeHTTP") || nipServers[an.StaticCallee(&call.Call)]) && o.Path(call.Call.Args[0]) == "recv.NIP11":
 			nipG, nipPos = append(nipG, gs), o.Site().Pos()
 		case name == "invoke:net/http.Handler.ServeHTTP" && o.Path(call.Call.Value) == "recv.Default":
 			defG, defPos = append(defG, gs), o.Site().Pos()
 		case name == "io.WriteString":
+			if statusOnPath(call.Parent(), call) {
+				return // an error answer, not the greeting
+			}
 			if s, ok := an.ConstStr(call.Call.Args[1]); ok && s != "{}" {
 				greetG = append(greetG, gs)
 				if defPos == token.NoPos {
@@ -188,6 +211,15 @@ func headerSetsDepth(fn *ssa.Function, depth int) []hdrSet {
 				if depth > 0 {
 					recv = an.PathOf(hc.Call.Args[0])
 				}
+				// the helper may be handed the header map instead of the writer
+				// (`addHeaders(w.Header())`): its parameter is the caller's argument
+				if pr, isParam := hc.Call.Args[0].(*ssa.Parameter); isParam && an.CalleeName(&hc.Call) != "" {
+					for i, q := range g.Params {
+						if q == pr && i < len(call.Call.Args) {
+							recv = an.PathOf(call.Call.Args[i])
+						}
+					}
+				}
 				if always && strings.HasPrefix(recv, "call:invoke:net/http.ResponseWriter.Header(p:") {
 					out = append(out, hdrSet{h.name, h.val, call})
 				}
@@ -200,6 +232,9 @@ func headerSetsDepth(fn *ssa.Function, depth int) []hdrSet {
 		n, ok1 := an.ConstStr(call.Call.Args[1])
 		v, ok2 := an.ConstStr(call.Call.Args[2])
 		if ok1 && ok2 && strings.Contains(an.PathOf(call.Call.Args[0]), "ResponseWriter.Header") {
+			out = append(out, hdrSet{n, v, call})
+		} else if _, isParam := call.Call.Args[0].(*ssa.Parameter); ok1 && ok2 && isParam && depth > 0 {
+			// inside a helper: the header map is a parameter, judged at the call site
 			out = append(out, hdrSet{n, v, call})
 		}
 	}
@@ -225,6 +260,15 @@ func bodyWrites(fn *ssa.Function) []*ssa.Call {
 		}
 	}
 	return out
+}
+
+func isBodyWrite(w *ssa.Call) bool {
+	for _, bw := range bodyWrites(w.Parent()) {
+		if bw == w {
+			return true
+		}
+	}
+	return false
 }
 
 func statusOnPath(fn *ssa.Function, w *ssa.Call) bool {
@@ -269,26 +313,24 @@ func runHdrBeforeWrite(c *core.Ctx) {
 			fmt.Sprintf("status-200 body write not preceded by both headers (Content-Type nostr+json set before: %v, CORS * set before: %v): the answer is served with a sniffed Content-Type / without CORS", ct, cors))
 	}
 	n := 0
-	for _, w := range bodyWrites(nip) {
-		if statusOnPath(nip, w) {
-			continue
+	checked := map[*ssa.Call]bool{}
+	// the document may be written by a private method ServeHTTP hands the writer to
+	an.Region(nip, nil, func(o an.Occ) {
+		w, isCall := o.In.(*ssa.Call)
+		if !isCall || !isBodyWrite(w) || statusOnPath(w.Parent(), w) {
+			return
 		}
 		n++
-		check(nip, w, "document/write")
-	}
+		checked[w] = true
+		check(w.Parent(), w, "document/write")
+	})
 	// body writes of the mux itself inside the NIP-11 branch
 	an.Region(mux, nil, func(o an.Occ) {
 		w, isCall := o.In.(*ssa.Call)
 		if !isCall {
 			return
 		}
-		isBody := false
-		for _, bw := range bodyWrites(w.Parent()) {
-			if bw == w {
-				isBody = true
-			}
-		}
-		if !isBody {
+		if !isBodyWrite(w) || checked[w] || statusOnPath(w.Parent(), w) {
 			return
 		}
 		gs := guardSummary(mux, o.Block())
@@ -312,23 +354,28 @@ func runNip11Body(c *core.Ctx) {
 	c.CountFuncs(1)
 	ok := false
 	var pos token.Pos
-	for _, w := range bodyWrites(nip) {
-		if statusOnPath(nip, w) {
-			continue
+	nWrites, nGood := 0, 0
+	an.Region(nip, nil, func(o an.Occ) {
+		w, isCall := o.In.(*ssa.Call)
+		if !isCall || !isBodyWrite(w) || statusOnPath(w.Parent(), w) {
+			return
 		}
+		nWrites++
 		pos = w.Pos()
 		arg := w.Call.Args[len(w.Call.Args)-1]
-		if an.PathOf(arg) == "call:encoding/json.Marshal(recv)#0" {
+		if o.Path(arg) == "call:encoding/json.Marshal(recv)#0" {
 			// and only on the err == nil edge
-			for _, g := range an.Guards(nip, w.Block()) {
-				if b, isBin := g.V.(*ssa.BinOp); isBin && strings.Contains(an.PathOf(b), "call:encoding/json.Marshal(recv)#1") {
+			for _, g := range an.Guards(w.Parent(), w.Block()) {
+				if b, isBin := g.V.(*ssa.BinOp); isBin && strings.Contains(o.Path(b), "call:encoding/json.Marshal(recv)#1") {
 					if (b.Op == token.NEQ) == !g.True {
-						ok = true
+						nGood++
+						return
 					}
 				}
 			}
 		}
-	}
+	})
+	ok = nWrites > 0 && nGood == nWrites
 	c.Check(ok, nil, fname(c, nip), "document/body", P.Pos(pos), "the status-200 body is json.Marshal(receiver) on its err == nil edge", "the status-200 body is not json.Marshal of the configured document")
 }
 
@@ -401,6 +448,62 @@ func runKindCodec(c *core.Ctx) {
 			}
 		}
 	}
+	// the same two shapes written byte by byte (`strconv.AppendInt`, `append(buf, '[')`, …):
+	// every successful return is read as the sequence of literals and numbers it was built from
+	for _, rb := range an.ReturnBlocks(enc) {
+		ret, isRet := an.LastInstr(rb).(*ssa.Return)
+		if !isRet || len(ret.Results) != 2 {
+			continue
+		}
+		if k, isConst := ret.Results[1].(*ssa.Const); !isConst || !k.IsNil() {
+			continue
+		}
+		paths, _ := an.PathsTo(enc, rb, 256)
+		for _, p := range paths {
+			if !an.Feasible(p) {
+				continue
+			}
+			v := ret.Results[0]
+			for i := 0; i < 4; i++ {
+				ph, ok := v.(*ssa.Phi)
+				if !ok {
+					break
+				}
+				if e := an.PhiOnPath(ph, p); e != nil {
+					v = e
+				} else {
+					break
+				}
+			}
+			seq, ok := kindBytes(v, 0)
+			if !ok {
+				continue // not built by hand: the json.Marshal reading above applies
+			}
+			eqGuard := ""
+			for _, g := range p.Conds() {
+				g = an.NormCond(g)
+				if b, ok := g.V.(*ssa.BinOp); ok && (b.Op == token.EQL || b.Op == token.NEQ) {
+					x, y := an.PathOf(b.X), an.PathOf(b.Y)
+					if (strings.HasSuffix(x, ".From") && strings.HasSuffix(y, ".To")) || (strings.HasSuffix(x, ".To") && strings.HasSuffix(y, ".From")) {
+						if (b.Op == token.EQL) == g.True {
+							eqGuard = "eq"
+						} else {
+							eqGuard = "ne"
+						}
+					}
+				}
+			}
+			isNum := func(t, field string) bool { return strings.HasPrefix(t, "num:") && strings.HasSuffix(t, field) }
+			switch {
+			case eqGuard == "eq" && len(seq) == 1 && (isNum(seq[0], ".From") || isNum(seq[0], ".To")):
+				single = true
+			case eqGuard == "ne" && len(seq) == 5 && seq[0] == "lit:[" && isNum(seq[1], ".From") && seq[2] == "lit:," && isNum(seq[3], ".To") && seq[4] == "lit:]":
+				pair = true
+			default:
+				encBad = true
+			}
+		}
+	}
 	if encBad {
 		single, pair = single && false, pair && false
 	}
@@ -455,6 +558,103 @@ func runKindCodec(c *core.Ctx) {
 		}
 	}
 	c.Check(okNum && okArr, nil, fname(c, dec), "decode", P.Pos(dec.Pos()), "number n ⇒ From = To = n; array of exactly 2 ⇒ From = v[0], To = v[1]", fmt.Sprintf("decoder shape not recognised as the inverse of the encoder (number: %v, pair: %v; stores: %v)", okNum, okArr, stores))
+}
+
+// kindBytes reads a []byte / string value built by hand as the sequence of its parts:
+// "lit:<text>" for constant bytes (adjacent ones joined) and "num:<access path>" for a
+// decimal rendering of an integer (strconv.AppendInt/FormatInt base 10, strconv.Itoa).
+func kindBytes(v ssa.Value, depth int) ([]string, bool) {
+	if depth > 12 {
+		return nil, false
+	}
+	join := func(a, b []string) []string {
+		out := append([]string{}, a...)
+		for _, t := range b {
+			if n := len(out); n > 0 && strings.HasPrefix(out[n-1], "lit:") && strings.HasPrefix(t, "lit:") {
+				out[n-1] += strings.TrimPrefix(t, "lit:")
+			} else {
+				out = append(out, t)
+			}
+		}
+		return out
+	}
+	switch x := v.(type) {
+	case *ssa.Const:
+		if x.IsNil() {
+			return nil, true
+		}
+		if s, ok := an.ConstStr(x); ok {
+			if s == "" {
+				return nil, true
+			}
+			return []string{"lit:" + s}, true
+		}
+		return nil, false
+	case *ssa.MakeSlice:
+		if k, ok := an.ConstInt(x.Len); ok && k == 0 {
+			return nil, true
+		}
+		return nil, false
+	case *ssa.Slice:
+		// make([]byte, 0, K) with constant K: `slice (new [K]byte)[:0]`
+		if k, ok := an.ConstInt(x.High); ok && x.High != nil && k == 0 && x.Low == nil {
+			return nil, true
+		}
+		return nil, false
+	case *ssa.ChangeType:
+		return kindBytes(x.X, depth+1)
+	case *ssa.Convert:
+		// []byte(string) and string([]byte)
+		return kindBytes(x.X, depth+1)
+	case *ssa.BinOp:
+		if x.Op != token.ADD {
+			return nil, false
+		}
+		a, ok1 := kindBytes(x.X, depth+1)
+		b, ok2 := kindBytes(x.Y, depth+1)
+		return join(a, b), ok1 && ok2
+	case *ssa.Call:
+		base10 := func(i int) bool {
+			k, ok := an.ConstInt(x.Call.Args[i])
+			return ok && k == 10
+		}
+		switch an.CalleeName(&x.Call) {
+		case "strconv.AppendInt", "strconv.AppendUint":
+			dst, ok := kindBytes(x.Call.Args[0], depth+1)
+			if !ok || !base10(2) {
+				return nil, false
+			}
+			return join(dst, []string{"num:" + an.PathOf(x.Call.Args[1])}), true
+		case "strconv.FormatInt", "strconv.FormatUint":
+			if !base10(1) {
+				return nil, false
+			}
+			return []string{"num:" + an.PathOf(x.Call.Args[0])}, true
+		case "strconv.Itoa":
+			return []string{"num:" + an.PathOf(x.Call.Args[0])}, true
+		}
+		if b, ok := x.Call.Value.(*ssa.Builtin); ok && b.Name() == "append" && len(x.Call.Args) == 2 {
+			dst, ok := kindBytes(x.Call.Args[0], depth+1)
+			if !ok {
+				return nil, false
+			}
+			if elems, ok := an.VariadicElems(x.Call.Args[1]); ok {
+				var lits []string
+				for _, e := range elems {
+					k, isK := an.ConstInt(e)
+					if !isK || k < 0 || k > 127 {
+						return nil, false
+					}
+					lits = append(lits, "lit:"+string(rune(k)))
+				}
+				return join(dst, lits), true
+			}
+			// append(dst, "text"...) / append(dst, other...)
+			rest, ok := kindBytes(x.Call.Args[1], depth+1)
+			return join(dst, rest), ok
+		}
+	}
+	return nil, false
 }
 
 // sliceLitElems: elements of a slice literal []T{a, b, …} (new [n]T; stores; slice).
